@@ -806,6 +806,12 @@ fn s_sel(r: &mut Rng) -> Case_ {
 fn fixed() -> Vec<Case_> {
     let mut out = Vec::new();
     let i = |v: i64| V::I(v);
+    // witness of KF-C33-1: a IN (CASE WHEN b > 0 THEN b WHEN b < 0 THEN 0 - b ELSE 0 END, 7): the CASE evaluates to the scalar 0
+    // on an empty batch, so InListExpr::try_new takes the list for constant and freezes it into a static filter
+    for neg in [false, true] {
+        let abs_b = E::Case(vec![(E::Cmp(">", bx(E::Col(1)), bx(li(0))), E::Col(1)), (E::Cmp("<", bx(E::Col(1)), bx(li(0))), E::Arith('-', bx(li(0)), bx(E::Col(1))))], Some(bx(li(0))));
+        out.push(Case_ { stream: "witness", kind: 0, cols: vec![("a".into(), Ty::I64), ("b".into(), Ty::I64)], rows: vec![vec![i(1), i(2), i(0), i(3)], vec![i(1), i(-2), i(5), i(0)]], n: 4, sel: None, e: E::InList(neg, bx(E::Col(0)), vec![abs_b, li(7)]) });
+    }
     // IN (SET) with NULL in the list, NOT IN, NULL needle
     for neg in [false, true] {
         for t in [Ty::I64, Ty::I8, Ty::Str] {
